@@ -5,6 +5,9 @@ SplitMix generator of the check (VERIF_SEED)."""
 FUNC_SIG = "i64, i64:p, i64:n"
 
 
+GLOBAL_HARD_REGS = ["r12", "r13", "r14", "r15", "rbx"]   # callee-saved on x86-64 SysV
+
+
 class ProgGen:
     """one multi-module program: base modules (linked first) and later modules that call/inline
     functions of the base modules.  All functions have the signature  i64 f (i64 p, i64 n)."""
@@ -68,7 +71,11 @@ class ProgGen:
         post = []    # items after endfunc (lref tables)
         has_lref = False
         ins.append(f"\tmov\ts, {r.below(1000)}")
-        kinds = ["loop", "mem", "ext", "arith", "dbl"]
+        kinds = ["loop", "mem", "ext", "arith", "dbl", "glob"]
+        # variables tied to callee-saved hard registers (`global`): they are numbered after func->vars
+        # (new_func_reg), live in func->global_vars and must survive duplicate/restore like locals.
+        # The interpreter accepts them only in reg-reg moves; the old value is put back before `ret`.
+        globs = []
         if self.flavour in ("switch", "mixed"):
             kinds += ["switch", "switch"]
         if self.flavour == "mixed":
@@ -106,6 +113,16 @@ class ProgGen:
                         "\tand\ts, s, 1048575"]
             elif k == "ext":
                 ins += ["\tcall\tp_log, ext_log, s"]
+            elif k == "glob":
+                free = [h for h in GLOBAL_HARD_REGS if h not in [g[1] for g in globs]]
+                if not free:
+                    ins += ["\tadd\ts, s, 1"]
+                else:
+                    h = r.choice(free)
+                    g, sv = f"g_{h}", f"sv_{h}"
+                    globs.append((g, h, sv))
+                    ins += [f"\tmov\t{sv}, {g}", f"\tmov\t{g}, s", f"\tadd\ts, s, {1 + r.below(9)}",
+                            f"\tmov\tb, {g}", "\tadd\ts, s, b", "\tand\ts, s, 1048575"]
             elif k in ("call", "inline"):
                 c = r.choice(avail)
                 callees.append(c)
@@ -138,9 +155,13 @@ class ProgGen:
                 post += [f"{tbl}:\tlref\t{lr1}", f"\tlref\t{lr2}"]
                 if r.chance(1, 2):
                     post += [f"\tlref\t{lr2}, {lr1}, {r.below(16)}"]
+        ins += [f"\tmov\t{g}, {sv}" for g, h, sv in globs]
         ins += [f"\tmov\ti64:{8 * r.below(8)}(p), s", "\tret\ts"]
-        text = pre + [f"{fn}:\tfunc\t{FUNC_SIG}",
-                      "\tlocal\ti64:s, i64:i, i64:t, i64:a, i64:b, i64:r, i64:la, d:d1"] + ins + ["\tendfunc"] + post
+        decl = ["\tlocal\ti64:s, i64:i, i64:t, i64:a, i64:b, i64:r, i64:la, d:d1"]
+        if globs:
+            decl += ["\tlocal\t" + ", ".join(f"i64:{sv}" for g, h, sv in globs),
+                     "\tglobal\t" + ", ".join(f"i64:{g}:{h}" for g, h, sv in globs)]
+        text = pre + [f"{fn}:\tfunc\t{FUNC_SIG}"] + decl + ins + ["\tendfunc"] + post
         return "\n".join(text), callees, has_lref, snips
 
     def base_modules(self):
